@@ -14,6 +14,7 @@ import (
 
 	"github.com/Masterminds/semver"
 	"github.com/cube2222/octosql/config"
+	"github.com/cube2222/octosql/helpers/simhook"
 )
 
 var repositoriesDir = func() string {
@@ -67,12 +68,15 @@ func AddRepository(ctx context.Context, url string) error {
 	if err != nil {
 		return fmt.Errorf("couldn't encode repository entry: %w", err)
 	}
+	simhook.CrashPoint("repository.after_fetch")
 	if err := os.MkdirAll(repositoriesDir, 0755); err != nil {
 		return fmt.Errorf("couldn't create plugin repositories directory: %w", err)
 	}
+	simhook.CrashPoint("repository.before_write")
 	if err := os.WriteFile(filepath.Join(repositoriesDir, repo.Slug), data, 0644); err != nil {
 		return fmt.Errorf("couldn't write repository entry: %w", err)
 	}
+	simhook.CrashPoint("repository.after_write")
 
 	return nil
 }
